@@ -94,6 +94,8 @@ type interpreter struct {
 	inited             map[*ssa.Package]bool
 	depth              int
 	onceDone           map[*value]bool
+	lazyDone           map[string]bool
+	digests            map[*value][]value
 	stack              []*ssa.Function
 	inHarness          bool
 	ltPoison           bool
@@ -337,7 +339,7 @@ func visitInstr(fr *frame, instr ssa.Instruction) continuation {
 		fr.env[instr] = makeMap(instr.Type().Underlying().(*types.Map).Key(), reserve)
 
 	case *ssa.Range:
-		fr.env[instr] = rangeIter(fr.get(instr.X), instr.X.Type())
+		fr.env[instr] = fr.i.rangeIter(fr.get(instr.X), instr.X.Type())
 
 	case *ssa.Next:
 		fr.env[instr] = fr.get(instr.Iter).(iter).next()
@@ -393,7 +395,7 @@ func visitInstr(fr *frame, instr ssa.Instruction) continuation {
 		}
 		switch x := x.(type) {
 		case array:
-			fr.env[instr] = x[idx]
+			fr.env[instr] = cloneAgg(x[idx])
 		case string:
 			fr.env[instr] = x[idx]
 		case symStr:
@@ -409,7 +411,7 @@ func visitInstr(fr *frame, instr ssa.Instruction) continuation {
 		v := fr.get(instr.Value)
 		switch m := m.(type) {
 		case *omap:
-			m.insert(fr.i, key, v)
+			m.insert(fr.i, cloneAgg(key), cloneAgg(v))
 		default:
 			panic(fmt.Sprintf("illegal map type: %T", m))
 		}
